@@ -14,6 +14,7 @@ Not decided: that the AV1 sequence-header / VP9 header parsers compute the right
 from .. import boxcheck as B
 from .. import flow, guards, mir, sym
 from .. import layout as L
+from .. import bitreader as BR
 from ..anchors import AnchorMissing
 from . import c04, common
 
@@ -42,6 +43,8 @@ def check(prog, run):
     av1_reader_rule(prog, run, "R9")
     run.rule("R10", "offset-passing header parsers (VP9): every read starts at the offset returned by the read before it (+k) on every path; no field is read from bytes another field consumed")
     cursor_chain_rule(prog, run, "R10")
+    run.rule("R12", "AV1 bit reader primitives (read_bit, read_bits, skip_bits) and the uvlc helper behave as the descriptors f(n) / uvlc() of the AV1 specification (complete tabulation of their finite state)")
+    bitreader_primitives_rule(prog, run, "R12")
     run.rule("R11", "byte-packed header fields (VP9): fields taken from one byte occupy non-empty, pairwise disjoint bit ranges")
     bitfield_rule(prog, run, "R11")
     run.rule("R8", "table-driven configuration fields agree with their specification tables (AAC samplingFrequencyIndex; av1C flag bits per configuration field)")
@@ -651,6 +654,92 @@ def av1_reader_rule(prog, run, rule):
             run.bad(rule, "AV1 sequence header (%s): %s" % (label, mm["what"]), "on the syntax path %s the parser deviates from the specification: %s" % (
                 {k: v for k, v in mm["scenario"].items() if v}, mm["what"]), mir.loc_of(u.bodies[name]) if name in u.bodies else None)
     run.extra["av1_syntax_paths_compared"] = total
+
+
+# ---- R12: the bit reader the AV1 parser is written against --------------------------------------------------------------------------
+def bitreader_primitives_rule(prog, run, rule):
+    """R9 compares the sequence-header *read program* with the specification and treats the reader's primitives as given.  Here the
+    primitives are tabulated by finite-domain interpretation of their MIR (lib/mx/minieval.py):
+    read_bit for every byte value x every bit position (and at the end of the data), read_bits / skip_bits for every count 0..65
+    (MSB first, position advances by the count, more than 64 bits refused), and the uvlc helper for 0..31 leading zeros
+    (AV1 4.10.3: leadingZeros zero bits, a one bit, leadingZeros value bits => 2*lz+1 bits consumed) and for 32 (no value bits)."""
+    from .. import minieval as E
+    u = prog.lib
+    adts = [k for k in u.adts if k.endswith("codec::av1::BitReader")]
+    if len(adts) != 1:
+        run.bad(rule, "anchor BitReader", "bit reader type not found")
+        return
+    adt = adts[0]
+    names = [f["name"] for f in u.adts[adt]["variants"][0]["fields"]]
+    methods = {}
+    for k, b in u.bodies.items():
+        if b["in_test_cfg"]:
+            continue
+        n = mir.norm(k)
+        if n.startswith("codec::av1::BitReader::"):
+            methods[n.split("::")[-1]] = k
+    uv = [k for k, b in u.bodies.items() if not b["in_test_cfg"] and b["argc"] == 1 and "BitReader" in b["locals"][1]["ty"] and b["locals"][0]["ty"].startswith("std::option::Option<") and
+          mir.norm(k).startswith("codec::av1::") and not mir.norm(k).startswith("codec::av1::BitReader::") and b.get("kind") != "Closure" and
+          k in u.hir and BR._has_open_loop(u.hir[k]["body"])]      # the helper with a `loop`/`while` over read_bit: the variable-length code
+    need = ("read_bit", "read_bits", "skip_bits")
+    if any(m_ not in methods for m_ in need) or len(uv) != 1 or sorted(names) != ["bit_pos", "byte_pos", "data"]:
+        run.bad(rule, "anchor BitReader methods", "expected read_bit/read_bits/skip_bits on a {data, byte_pos, bit_pos} reader and one uvlc helper (found methods %s, helpers %s, fields %s)" % (sorted(methods), [mir.norm(x) for x in uv], names))
+        return
+
+    def rd(data, pos=0):
+        vals = {"data": E.Bytes(dict(enumerate(data)), exact=len(data)), "byte_pos": pos // 8, "bit_pos": pos % 8}
+        return E.Adt(adt, 0, [vals[n_] for n_ in names], names)
+
+    def pos_of(r):
+        return r.get("byte_pos") * 8 + r.get("bit_pos")
+
+    def opt(v):
+        return ("none",) if isinstance(v, E.Adt) and v.name == "Option" and v.variant == 0 else (("some", v.fields[0]) if isinstance(v, E.Adt) and v.name == "Option" else ("?", v))
+    n = 0
+    try:
+        bad = None
+        for v in range(256):
+            for k in range(8):
+                r = rd([v, 0x5A], k)
+                got = opt(E.Machine(u).call_fn(methods["read_bit"], [r]))
+                n += 1
+                if got != ("some", (v >> (7 - k)) & 1) or pos_of(r) != k + 1:
+                    bad = bad or "read_bit on byte 0x%02x at bit %d returns %s and moves to bit %s (want %d, %d)" % (v, k, got, pos_of(r), (v >> (7 - k)) & 1, k + 1)
+        r = rd([0xFF], 8)
+        if opt(E.Machine(u).call_fn(methods["read_bit"], [r])) != ("none",):
+            bad = bad or "read_bit past the end of the data does not return None"
+        run.check(bad is None, rule, "read_bit", "bit (7 - bit_pos) of data[byte_pos], MSB first, position + 1, None at the end (256 x 8 states)", bad or "", mir.loc_of(u.bodies[methods["read_bit"]]))
+        pattern = [0xA5, 0x3C, 0xF0, 0x0F, 0x96, 0x69, 0x81, 0x7E, 0xC3, 0x55]
+        bits = "".join("{:08b}".format(x) for x in pattern)
+        bad = None
+        for start in (0, 3):
+            for cnt in range(0, 66):
+                r = rd(pattern, start)
+                got = opt(E.Machine(u).call_fn(methods["read_bits"], [r, cnt]))
+                n += 1
+                want = ("none",) if cnt > 64 else ("some", int(bits[start:start + cnt] or "0", 2))
+                if got != want or (cnt <= 64 and pos_of(r) != start + cnt):
+                    bad = bad or "read_bits(%d) at bit %d returns %s, position %s (want %s, position %d)" % (cnt, start, got, pos_of(r), want, start + cnt)
+                r = rd(pattern, start)
+                got = opt(E.Machine(u).call_fn(methods["skip_bits"], [r, cnt]))
+                n += 1
+                if got[0] != "some" or pos_of(r) != start + cnt:
+                    bad = bad or "skip_bits(%d) at bit %d ends at bit %s (%s)" % (cnt, start, pos_of(r), got[0])
+        run.check(bad is None, rule, "read_bits / skip_bits", "MSB-first value of the next n bits, position + n, n > 64 refused (n = 0..65, two alignments)", bad or "", mir.loc_of(u.bodies[methods["read_bits"]]))
+        bad = None
+        for lz in range(0, 33):
+            s_ = "0" * lz + "1" + "1" * lz + "1" * 24
+            s_ += "0" * ((8 - len(s_) % 8) % 8)
+            r = rd([int(s_[i:i + 8], 2) for i in range(0, len(s_), 8)])
+            got = opt(E.Machine(u).call_fn(uv[0], [r]))
+            n += 1
+            want_pos = 2 * lz + 1 if lz < 32 else lz + 1
+            if got[0] != "some" or pos_of(r) != want_pos:
+                bad = bad or "uvlc with %d leading zeros consumes %s bits (%s), AV1 4.10.3 prescribes %d" % (lz, pos_of(r), got[0], want_pos)
+        run.check(bad is None, rule, "uvlc", "leadingZeros zeros, a one, leadingZeros value bits (none for 32): lz = 0..32", bad or "", mir.loc_of(u.bodies[uv[0]]))
+    except E.Unsupported as ex:
+        run.bad(rule, "bit reader tabulation", "cannot tabulate the bit reader (fail closed): %s" % ex)
+    run.floor(rule, n, 2000, "bit-reader evaluations")
 
 
 # ---- R11: bit fields packed into one byte ---------------------------------------------------------------------------------------
